@@ -120,6 +120,11 @@ class Scratch:
                 raise Inconclusive("shim %s: dependency line not found in Cargo.toml" % name)
             self.scalings.append("dependency %s replaced by /verif/shims/%s (scratch copy only)" % (name, name))
         self.write("Cargo.toml", toml)
+        if "tracing" in which:
+            # the repository's integration tests use tracing-test, which needs the real tracing crate; they are not part of
+            # any harness, but `cargo kani playback` (cargo test) would try to build them
+            shutil.rmtree(self.path("tests"), ignore_errors=True)
+            self.scalings.append("tests/ removed from the scratch copy (integration tests need the real tracing crate; only harness playback is built)")
         if "ahash" in which:
             self.scale("src/internal/frozen_copy_map.rs", r"use std::collections::HashMap;", "use ahash::StdHashMap as HashMap;",
                        "frozen_copy_map.rs: std::collections::HashMap -> ahash shim (scratch copy only)")
